@@ -41,6 +41,8 @@ def m_int(it, args, kw):
             return real_trunc(v)
     if isinstance(v, SStr):
         return parse_int(it, v)
+    if hasattr(v, "sym_int"):
+        return v.sym_int(it)
     if isinstance(v, SObj):
         raise Unsupported("int() of object")
     if v is None:
@@ -429,6 +431,8 @@ def m_sorted(it, args, kw):
             raise Unsupported("sorted(key=...) over a symbolic sequence")
         from . import seqs
 
+        if getattr(src, "objects", False):
+            return seqs.permuted(it, src)
         return seqs.SSorted(it, src).as_seq()
     items = it.iterate(args[0])
     if deep_concrete(items) and deep_concrete(kw):
